@@ -422,7 +422,7 @@ func runC19(c *Ctx) {
 	}
 
 	c19R2(c, readLoop, onMessage, dcPkg)
-	c19R3(c)
+	c19R3(c, "C19.R3", "")
 
 	if c.Thorough {
 		c05Config386(c, func(c2 *Ctx) { runC19(c2) })
